@@ -19,7 +19,7 @@ import ast
 import z3
 
 from pyvc import cx, ob
-from .cxutil import clause, canary, pcs, mx, mn
+from .cxutil import clause, canary, pcs, mx, mn, UNRECOGNISED
 
 PROP = 'C16'
 POW = z3.Function('POW_stretching', z3.IntSort(), z3.RealSort())
@@ -172,7 +172,14 @@ def seq_prelude():
 
     def copy(it, f, args, kw, node):
         return f.bound
-    return {'np.arange': arange, 'np.cumsum': cumsum, 'np.sum': npsum, 'np.floor': floor, 'np.ceil': ceil, 'seq.copy': copy}
+
+    def nparray(it, f, args, kw, node):
+        v = args[0]
+        if isinstance(v, Seq):
+            return v                # element-wise copy: same length, same elements
+        from pyvc import prelude
+        return prelude.TABLE['np.array'](it, f, args, kw, node)
+    return {'np.array': nparray, 'np.atleast_1d': nparray, 'np.arange': arange, 'np.cumsum': cumsum, 'np.sum': npsum, 'np.floor': floor, 'np.ceil': ceil, 'seq.copy': copy}
 
 
 def r_hook(it, v, k):
@@ -186,6 +193,22 @@ class Concat(Seq):
         for p in parts:
             length = length + p.length
         super().__init__(z3.simplify(length), None, None, 'concat')
+
+
+EMPTY = None
+
+
+def parts_of(w, given):
+    """(left, middle, right) of a returned width sequence: a 3-part concatenation, or the given widths alone (nothing added)"""
+    global EMPTY
+    if EMPTY is None:
+        EMPTY = Seq(0, lambda k: z3.RealVal(0), lambda n: z3.RealVal(0), 'prefix', dict(of=Seq(0, lambda k: z3.RealVal(0), lambda n: z3.RealVal(0), 'empty'), n=z3.IntVal(0)))
+    if isinstance(w, Concat) and len(w.parts) == 3:
+        return w.parts
+    if w is given:
+        rev = Seq(0, lambda k: z3.RealVal(0), None, 'reversed', dict(of=EMPTY, total=z3.RealVal(0)))
+        return [rev, w, EMPTY]
+    return None
 
 
 def run_stretch(use_up):
@@ -288,9 +311,10 @@ def task_stretch():
 
         def shape(r):
             e, w, rem = r.value
-            if not (isinstance(w, Concat) and len(w.parts) == 3 and isinstance(e, list) and len(e) == 2):
-                return False
-            left, mid, right = w.parts
+            ps = parts_of(w, r.state['widths'])
+            if ps is None or not (isinstance(e, list) and len(e) == 2):
+                return UNRECOGNISED('the result is neither a three-part concatenation nor the given widths')
+            left, mid, right = ps
             if not (left.kind == 'reversed' and left.info['of'].kind == 'prefix' and mid is r.state['widths'] and right.kind == 'prefix'):
                 return False
             return True
@@ -298,6 +322,8 @@ def task_stretch():
 
         def count(r):
             e, w, rem = r.value
+            if not isinstance(w, Seq):
+                return UNRECOGNISED('returned widths are not a sequence built from the inputs')
             rem = I(rem)
             g = [w.length == NX - rem, rem >= 0]
             if use_up:
@@ -307,12 +333,17 @@ def task_stretch():
 
         def covers(r):
             e, w, rem = r.value
+            if not (isinstance(e, list) and len(e) == 2):
+                return UNRECOGNISED('returned edges are not a pair')
             return z3.And(Rr(e[0]) <= DM0, Rr(e[0]) <= E0, Rr(e[1]) >= DM1, Rr(e[1]) >= E1)
         clause(col, f'extent_covers_given_edges_and_domain/{tag}', res, with_lemmas(covers), PRE, select=ok)
 
         def consistent(r):
             e, w, rem = r.value
-            left, mid, right = w.parts
+            ps = parts_of(w, r.state['widths'])
+            if ps is None:
+                return UNRECOGNISED('the result is neither a three-part concatenation nor the given widths')
+            left, mid, right = ps
             lp = left.info['of']
             # sum of all widths == edges_ext[1] - edges_ext[0], origin is edges[0] minus the left part, end is edges[1] plus the right part
             return z3.And(Rr(e[0]) == E0 - lp.psum(lp.length), Rr(e[1]) == E1 + right.psum(right.length),
@@ -321,7 +352,10 @@ def task_stretch():
 
         def geometric(r):
             e, w, rem = r.value
-            left, mid, right = w.parts
+            ps = parts_of(w, r.state['widths'])
+            if ps is None:
+                return UNRECOGNISED('the result is neither a three-part concatenation nor the given widths')
+            left, mid, right = ps
             lp = left.info['of']
             k = z3.Int('k_generic')
             g = []
@@ -335,7 +369,10 @@ def task_stretch():
 
         def positive(r):
             e, w, rem = r.value
-            left, mid, right = w.parts
+            ps = parts_of(w, r.state['widths'])
+            if ps is None:
+                return UNRECOGNISED('the result is neither a three-part concatenation nor the given widths')
+            left, mid, right = ps
             k = z3.Int('k_generic')
             g = [z3.Implies(z3.And(k >= 0, k < p.length), p.elem(k) > 0) for p in (left, right)]
             return z3.And(*g)
@@ -344,6 +381,6 @@ def task_stretch():
 
         def too_many(r):
             e, w, rem = r.value
-            return w.length == NX + 1
+            return (w.length == NX + 1) if isinstance(w, Seq) else None
         canary(col, f'canary/one_cell_too_many/{tag}', res, too_many, PRE, select=ok)
     return col.pack()
